@@ -279,6 +279,8 @@ def run(report, p):
                 continue
             okf = False
             for (rcls, rfield, rconv, rnode) in rr:
+                if isinstance(rconv, str) and rconv.startswith("unrecognised:"):
+                    raise AnalysisError(f"{rd.loc(rnode)}: the reader transforms the value of ({cls}, <{tag}>, {slot}) with `{rconv[13:]}`, a conversion this checker does not model")
                 same_field = (rcls == wcls and rfield == wfield) or (wcls == "MHLProcess" and wfield == "process_type" and rcls == "MHLProcessInfo" and rfield == "process")
                 # directory entries: <content> text -> hash_string, <structure> text -> structure_hash_string (both rows exist under the same tag)
                 inv_ok = INVERSE.get(wconv) == rconv or (wconv is None and rconv == "local" and wfield == "hash_string" and tag.endswith("dir-content"))  # the reader passes directory content digests through the (identity-on-digests) path conversion
